@@ -356,6 +356,16 @@ class IkeSa(object):
         message = Message.parse(data, header_only=False, crypto=self.peer_crypto)
         self.log_message(message, data, send=False)
 
+        # once we have keys, only integrity protected messages are acceptable. The only exception is a retransmitted
+        # IKE_SA_INIT request, which is answered with the stored response
+        if self.peer_crypto is not None and not message.authenticated:
+            if (message.exchange_type == Message.Exchange.IKE_SA_INIT and message.is_request
+                    and message.message_id == 0 and self.state == IkeSa.State.INIT_RES_SENT):
+                self.log_warning('IKE_SA_INIT retransmission detected. Sending last sent message')
+                return self.last_sent_response_data
+            self.log_warning('Received a message without integrity protection for an IKE_SA that has keys. Ignoring')
+            return None
+
         # check the role the sender claims to have corresponds with what we think about ourselves
         if message.is_initiator == self.is_initiator:
             self.log_error('Received a message with the wrong "INITIATOR" flag. Ignoring')
